@@ -10,6 +10,8 @@ fn main() {
         "c01" => checks::c01::main(&a),
         "c02" => checks::c02::main(&a),
         "c04" => checks::c04::main(&a),
+        "c05" => checks::c05::main(&a),
+        "c07" => checks::c07::main(&a),
         "c08" => checks::c08::main(&a),
         "c20" => checks::c20::main(&a),
         other => report::machinery(&format!("unknown check {other}")),
